@@ -379,6 +379,7 @@ Definition find_user (st : state) (n : N) : option N :=
 (** What the driver observes after every operation: the error class, a dump of all
     nine KV buckets (sorted by key) and the name lookups for the case's probes. *)
 Record obs := {
+  o_same : bool;   (* driver-side compression: the dump and lookups equal the previous step's *)
   o_err : N;
   o_orgs : list (N * oname);
   o_oidx : list (oname * N);
@@ -395,6 +396,24 @@ Record obs := {
 }.
 
 Record case := { c_ops : list op; c_obs : list obs }.
+
+(** Monomorphic constructors of the wire format (they elaborate much faster than record
+    and pair notations in the large case files the driver writes). *)
+Definition mk_org (id c v : N) : N * oname := (id, (c, v)).
+Definition mk_oidx (c v id : N) : oname * N := ((c, v), id).
+Definition mk_bkt (id org name : N) (sys : bool) : N * bucket :=
+  (id, {| b_org := org; b_name := name; b_sys := sys |}).
+Definition mk_nn (a b : N) : N * N := (a, b).
+Definition mk_nnn (a b c : N) : (N * N) * N := ((a, b), c).
+Definition mk_urm (a b c d : N) : (N * N) * (N * N) := ((a, b), (c, d)).
+Definition sN (a : N) : option N := Some a.
+Definition nN : option N := None.
+Definition mk_lk (a b : N) (r : option N) : (N * N) * option N := ((a, b), r).
+Definition mk_lu (a : N) (r : option N) : N * option N := (a, r).
+Definition osame (e : N) : obs :=
+  {| o_same := true; o_err := e; o_orgs := []; o_oidx := []; o_bkts := []; o_bidx := []; o_users := [];
+     o_uidx := []; o_pwds := []; o_urms := []; o_uix := []; o_lorg := []; o_lbkt := []; o_lusr := [] |}.
+Definition oN (a b : N) : oname := (a, b).
 
 (** insertion sort by key *)
 Section Sort.
@@ -417,7 +436,7 @@ Definition optN_eqb := option_eqb N.eqb.
 (** The model's observation for the probes the driver chose at this step. *)
 Definition model_obs (seen : obs) (se : state * N) : obs :=
   let st := fst se in
-  {| o_err := snd se;
+  {| o_same := false; o_err := snd se;
      o_orgs := ssort N.leb (s_orgs st);
      o_oidx := ssort nn_leb (s_oidx st);
      o_bkts := ssort N.leb (s_bkts st);
@@ -538,7 +557,7 @@ Definition ok_step (prev : obs) (o : op) (cur : obs) : bool :=
      end.
 
 Definition empty_obs : obs :=
-  {| o_err := 0; o_orgs := []; o_oidx := []; o_bkts := []; o_bidx := []; o_users := []; o_uidx := [];
+  {| o_same := false; o_err := 0; o_orgs := []; o_oidx := []; o_bkts := []; o_bidx := []; o_users := []; o_uidx := [];
      o_pwds := []; o_urms := []; o_uix := []; o_lorg := []; o_lbkt := []; o_lusr := [] |}.
 
 Fixpoint ok_trace (prev : obs) (ops : list op) (os : list obs) : bool :=
@@ -555,7 +574,22 @@ Fixpoint same_trace (os : list obs) (ms : list (state * N)) : bool :=
   | _, _ => false
   end.
 
+(** Undo the driver's compression of unchanged steps. *)
+Definition expand1 (prev cur : obs) : obs :=
+  if o_same cur then
+    {| o_same := false; o_err := o_err cur; o_orgs := o_orgs prev; o_oidx := o_oidx prev;
+       o_bkts := o_bkts prev; o_bidx := o_bidx prev; o_users := o_users prev; o_uidx := o_uidx prev;
+       o_pwds := o_pwds prev; o_urms := o_urms prev; o_uix := o_uix prev;
+       o_lorg := o_lorg prev; o_lbkt := o_lbkt prev; o_lusr := o_lusr prev |}
+  else cur.
+Fixpoint expand (prev : obs) (os : list obs) : list obs :=
+  match os with
+  | [] => []
+  | o :: r => let o' := expand1 prev o in o' :: expand o' r
+  end.
+
 Definition check (c : case) : verdict :=
-  let same := same_trace (c_obs c) (trace false init (c_ops c)) in
-  let ok := ok_trace empty_obs (c_ops c) (c_obs c) in
+  let os := expand empty_obs (c_obs c) in
+  let same := same_trace os (trace false init (c_ops c)) in
+  let ok := ok_trace empty_obs (c_ops c) os in
   judge same ok.
